@@ -120,7 +120,7 @@ CHECKS = {
         "enclosing function (edits in bounds, non-overlapping, result parses and type-checks: reported as violations otherwise) and the fixed function is executed symbolically next to the original on the same symbolic inputs: "
         "results, panic outcome, stores through arguments and the trace of opaque calls must agree on every path.",
    note="Behavioural and applies-cleanly clauses for the corpus only (~100 fixes of 25 checks); the position clauses (line/column exist, end after start) are not covered; for QF1009 (not an equivalent rewrite) only the applies-cleanly clauses. "
-        "Fixed functions are compiled with an adjusted import list (the property allows that). Three findings are listed in known_findings.txt (S1033 on an else-if guard, QF1004 with a trailing comma, S1034 on a comma-ok assertion: the fixed file does not parse / type-check). Checks whose triggers need time, net/http or regexp are not in the corpus.",
+        "Fixed functions are compiled with an adjusted import list (the property allows that). Three fix defects found this way (S1033 on an else-if guard, QF1004 with a trailing comma, S1034 on a comma-ok assertion) were repaired in /repo. Checks whose triggers need time, net/http or regexp are not in the corpus.",
    technique="translation validation: real fixes applied + bounded symbolic execution (go/ssa) + SMT, native replay",
    design="3/C16"),
  "C09": dict(
